@@ -105,6 +105,16 @@ theorem all_some_of_filled (p : List (Option Val)) (h : filled p = p.length) :
       | zero => exact ⟨o, by simp⟩
       | succ i => simpa using ih hq i (by simpa using hi)
 
+theorem filled_of_no_hole (p : List (Option Val)) (h : ∀ i, i < p.length → p[i]? ≠ some .none) :
+    filled p = p.length := by
+  induction p with
+  | nil => rfl
+  | cons a q ih =>
+    have hq : filled q = q.length := ih (fun i hi => by simpa using h (i+1) (by simpa using hi))
+    cases a with
+    | none => exact absurd (by simp) (h 0 (by simp))
+    | some o => simp only [filled, List.countP_cons, List.length_cons] at hq ⊢; simp [hq]
+
 theorem getD_map_apply (ms : List (Val → List Val)) (x : Val) (i : Nat) :
     (ms.map (· x)).getD i [] = (ms.getD i (fun _ => [])) x := by
   simp only [List.getD_eq_getElem?_getD, List.getElem?_map]
@@ -148,5 +158,48 @@ theorem mem_ensOuts_nff (oss : List (List Val)) (r : Val) :
   constructor
   · rintro ⟨ys, h, rfl⟩; exact ⟨ys, h, rfl⟩
   · rintro ⟨ys, h, rfl⟩; exact ⟨ys, h, rfl⟩
+
+
+/-! ### the tree denotation -/
+
+theorem outsEach_eq (ts : List Tree) (x : Val) : outsEach ts x = (ts.map outs).map (· x) := by
+  induction ts with
+  | nil => rfl
+  | cons t ts ih => simp [outsEach, ih]
+
+theorem outsNth_eq (ts : List Tree) (i : Nat) (x : Val) :
+    outsNth ts i x = ((ts.map outs).getD i (fun _ => [])) x := by
+  induction ts generalizing i with
+  | nil => simp [outsNth]
+  | cons t ts ih =>
+    cases i with
+    | zero => simp [outsNth]
+    | succ i => simp [outsNth, ih]
+
+/-- an exception value entering a simple servlet leaves it unchanged -/
+theorem wouts_exc (w : WSpec) (x : Val) (h : x.isExc = true) : wouts w x = [x] := by
+  simp [wouts, h]
+
+/-- **exception short-circuit, whole tree**: an exception value entering any servlet tree leaves it
+    unchanged (it is the only allowed outcome) -/
+theorem outs_exc (t : Tree) (x : Val) (h : x.isExc = true) : outs t x = [x] := by
+  refine outs.induct (motive_1 := fun t x => x.isExc = true → outs t x = [x])
+    (motive_2 := fun _ _ _ => True) (motive_3 := fun _ _ => True)
+    (motive_4 := fun ts x => x.isExc = true → outsSeq ts x = [x])
+    ?_ ?_ ?_ ?_ ?_ ?_ ?_ ?_ ?_ ?_ ?_ ?_ ?_ t x h
+  · intro w x h; simp [outs, wouts_exc w x h]
+  · intro ts x ih h; simp [outs, ih h]
+  · intro ts ff x hx _; simp [outs, hx]
+  · intro ts ff x hx _ h; exact absurd h hx
+  · intro ts sel x hx _; simp [outs, hx]
+  · intro ts sel x hx _ h; exact absurd h hx
+  · intros; trivial
+  · intros; trivial
+  · intros; trivial
+  · intros; trivial
+  · intros; trivial
+  · intro x _; simp [outsSeq]
+  · intro t ts x ih1 ih2 h
+    simp [outsSeq, ih2 h, ih1 x h]
 
 end Servlet
